@@ -30,6 +30,26 @@ class EnumEval:
             self.returned[k] = list(self.ret_exprs)
         return out
 
+    def _const_sets(self):
+        """declaration id -> enumerator names, for const containers initialised with a list of enumerators and never modified"""
+        if not hasattr(self, '_csets'):
+            from .facts import walk_stmts as _ws, walk_expr as _we, walk_all_exprs as _wa
+            out, written = {}, set()
+            for f in self.facts.functions:
+                if f.get('body') is None or f['tmpl'] == 'pattern':
+                    continue
+                for st in _ws(f['body']):
+                    if st['k'] == 'decl':
+                        for v in st['vars']:
+                            if v.get('init') is None or not (v.get('cty') or '').startswith('const '):
+                                continue
+                            leaves = [x for x in _we(v['init']) if x.get('k') in ('ref', 'int', 'str', 'call', 'member')]
+                            enums = [x for x in leaves if x.get('k') == 'ref' and x.get('dk') == 'enumerator']
+                            if enums and all(x.get('k') == 'ref' and x.get('dk') == 'enumerator' or (x.get('k') == 'call' and not x.get('callee_in_repo')) for x in leaves):
+                                out[v['d']] = set(x['name'] for x in enums)
+            self._csets = out
+        return self._csets
+
     # ------------------------------------------------------------------ conditions
     def cond(self, e, K, env, depth=0):
         e = strip_casts(e)
@@ -57,6 +77,13 @@ class EnumEval:
             return None
         if k == 'ref' and e.get('d') in env:
             return env[e['d']]
+        if k == 'call' and e.get('obj') is not None and (e.get('callee') or '').split('::')[-1] in ('contains', 'count') and len(e.get('args', [])) == 1 and \
+                self.is_subject(strip_casts(e['args'][0]), env):
+            # membership in a constant set of kinds: static const std::set<Token::Type> literal = {Token::ID, Token::NV_ID}
+            names = self._const_sets().get(strip_casts(e['obj']).get('d'))
+            if names is not None:
+                return K in names
+            return None
         if k == 'call' and e.get('ck') != 'operator' and e.get('obj') is None:
             g = self.facts.fn(e.get('callee'), optional=True) if e.get('callee') else None
             if g is not None and g.get('body') is not None:
